@@ -215,7 +215,7 @@ def aggregate(pid, prop, tier, seed, rundir, nshards, status, t0, replay=False):
         for t in getattr(prop, "FLOOR_TAGS", []):
             if classes.get(t, 0) == 0:
                 inconclusive.append("input class '%s' never observed" % t)
-        for m in getattr(prop, "FLOOR_MONITORS", []):
+        for m in list(getattr(prop, "FLOOR_MONITORS", [])) + ["warning-tap-selftest", "warning-tap-armed"]:
             if mon.get(m, [0, 0])[1] == 0:
                 inconclusive.append("monitor '%s' never evaluated non-vacuously" % m)
         if any(s.get("cov_on") for s in summaries):
